@@ -144,14 +144,11 @@ func (l *GoitLogger) WriteBranch(r *record, branchName string) error {
 		}
 	}
 	logsRefsPath := filepath.Join(logsPath, "refs")
-	if _, err := os.Stat(logsRefsPath); os.IsNotExist(err) {
-		if err := os.Mkdir(logsRefsPath, os.ModePerm); err != nil {
-			return fmt.Errorf("fail to make dir %s: %w", logsRefsPath, err)
-		}
-		logsHeadsPath := filepath.Join(logsRefsPath, "heads")
-		if err := os.Mkdir(logsHeadsPath, os.ModePerm); err != nil {
-			return fmt.Errorf("fail to make dir %s: %w", logsHeadsPath, err)
-		}
+	// each level is made if it is missing, whatever the others look like: a process that died between making
+	// logs/refs and logs/refs/heads must not leave a repository in which no journal entry can be written again
+	logsHeadsPath := filepath.Join(logsRefsPath, "heads")
+	if err := os.MkdirAll(logsHeadsPath, os.ModePerm); err != nil {
+		return fmt.Errorf("fail to make dir %s: %w", logsHeadsPath, err)
 	}
 
 	// write branch log
